@@ -580,6 +580,57 @@ Section Chart.
         * apply Forall_forall. intros ln Hln. rewrite Forall_forall in LC. destruct (LC ln Hln) as [Hl _]. rewrite Hl. unfold K. lia.
   Qed.
 
+  (* ---- row counts: every written measure has a multiple of 4 rows (needed by the READER's 4-beat slicing) ---- *)
+  Lemma fold_cap_mult4 r : forall d, (k_max_snap cf mod 4 = 0)%Z -> (d mod 4 = 0)%Z ->
+    (fold_left (lcm_and_cap cf) r d mod 4 = 0)%Z.
+  Proof.
+    induction r as [|y r IH]; intros d Hc Hd; [exact Hd|]. cbn [fold_left]. apply IH; [exact Hc|]. unfold lcm_and_cap.
+    assert (L : (Z.lcm d y mod 4 = 0)%Z).
+    { apply Z.mod_divide; [lia|]. apply Z.divide_trans with d; [apply Z.mod_divide; [lia|exact Hd]|apply Z.divide_lcm_l]. }
+    destruct (Z.min_spec (Z.lcm d y) (k_max_snap cf)) as [[_ E]|[_ E]]; rewrite E; assumption.
+  Qed.
+  Lemma den_max_mult4 dens : (k_max_snap cf mod 4 = 0)%Z -> Forall (fun y => (y mod 4 = 0)%Z) dens -> (den_max_of cf dens mod 4 = 0)%Z.
+  Proof.
+    intros Hc F. unfold den_max_of. destruct dens as [|d r]; [exact Hc|]. inversion F as [|? ? Hd Hr]; subst.
+    pose proof (fold_cap_mult4 r d Hc Hd) as L.
+    destruct (Z.min_spec (fold_left (lcm_and_cap cf) r d) (k_max_snap cf)) as [[_ E]|[_ E]]; rewrite E; assumption.
+  Qed.
+
+  Lemma wm_rows4 (Hc4 : (k_max_snap cf mod 4 = 0)%Z) (Hd4 : forall p, In p ps -> (p_den p mod 4 = 0)%Z) ms :
+    forall prev out, write_measures cf current ps (Some k) prev ms = Some out ->
+    Forall (fun mt => (Z.of_nat (length (mrows mt)) mod 4 = 0)%Z) out.
+  Proof.
+    induction ms as [|m ms IH]; intros prev out W; cbn [write_measures] in W.
+    - injection W as <-. constructor.
+    - fold (gm m) in W. fold (dm_of m) in W.
+      destruct (fill_lines _ (gm m) (dm_of m) k) as [lines'|] eqn:F; [|discriminate].
+      destruct (write_measures cf current ps (Some k) m ms) as [rest|] eqn:W1; [|discriminate]. injection W as <-.
+      pose proof (dm_pos m) as Hdm. pose proof (gm_ok m) as Hg.
+      assert (Hpok: Forall (placed_ok (dm_of m) k) (gm m)).
+      { apply Forall_forall. intros p Hp. rewrite Forall_forall in Hg. apply (pl_placed_ok k (dm_of m) Hk Hdm p (Hg p Hp)). }
+      destruct (written_measure_cells (dm_of m) k (gm m) lines' Hpok (Hnd m) F) as (L & R & C & Z0).
+      pose proof (lines_chars k (dm_of m) m (gm m) Hk Hdm Hg (Hnd m) lines' L R C Z0) as LC.
+      assert (Hne: lines' <> []) by (intro E; rewrite E in L; cbn in L; lia).
+      destruct (lines_piece lines' Hne LC) as [P1 P2].
+      apply Forall_app. split.
+      + apply Forall_forall. intros x Hx. apply repeat_spec in Hx. subst x. rewrite pad_mrows. unfold padrows. rewrite repeat_length. reflexivity.
+      + constructor; [|exact (IH m rest W1)]. unfold nl. rewrite (mrows_join lines' Hne P2).
+        assert (En: Z.of_nat (length lines') = dm_of m) by (rewrite L; lia). unfold text in *. rewrite En. unfold dm_of. apply den_max_mult4; [exact Hc4|].
+        apply Forall_forall. intros y Hy. apply in_map_iff in Hy. destruct Hy as (p & <- & Hp). apply Hd4. apply filter_In in Hp. apply Hp.
+  Qed.
+
+  Lemma denote_measures_ns_eq ms : forall keys m time' op acc ns op' acc' ns',
+    denote_measures ms keys m time' op acc ns = Some (op', acc', ns') ->
+    ns' = rev (map (fun mt => Z.of_nat (length (mrows mt))) ms) ++ ns.
+  Proof.
+    induction ms as [|mt ms IH]; intros keys m time' op acc ns op' acc' ns' D; cbn [denote_measures] in D.
+    - injection D as <- <- <-. reflexivity.
+    - change (filter (fun l : list Z => match l with [] => false | _ :: _ => true end) (map strip (split_on 10 mt))) with (mrows mt) in D.
+      cbn [map rev]. destruct (mrows mt) as [|r0 rs] eqn:E; [discriminate|]. cbv zeta in D.
+      match type of D with match ?X with _ => _ end = _ => destruct X as [[op1 acc1]|] end; [|discriminate].
+      rewrite (IH _ _ _ _ _ _ _ _ _ D), <- app_assoc. reflexivity.
+  Qed.
+
   Lemma cscan_perm : Permutation (cscan (measures_of ps)) ps.
   Proof.
     unfold cscan.
@@ -643,5 +694,29 @@ Section Chart.
       + rewrite <- Eb. apply denote_measures_dmeas.
         assert (Hone: out <> []) by (intro E; rewrite E in Eb; discriminate).
         rewrite (mrows_pieces out Hone H44). change 0%Z with (-1 + 1)%Z. rewrite W4. exact Hrun.
+  Qed.
+
+  Theorem chart_body_rows4 (Hc4 : (k_max_snap cf mod 4 = 0)%Z) (Hd4 : forall p, In p ps -> (p_den p mod 4 = 0)%Z) out :
+    write_measures cf current ps (Some k) (-1) (measures_of ps) = Some out ->
+    let body := join [10%Z; 44%Z; 10%Z] out in
+    forall keys' time' op acc op' acc' ns,
+      denote_measures (match body with [] => [] | _ => split_on 44 body end) keys' 0 time' op acc [] = Some (op', acc', ns) ->
+      Forall (fun n => (n mod 4 = 0)%Z) ns.
+  Proof.
+    intros W body keys' time' op acc op' acc' ns D.
+    assert (Hlt: forall m, In m (measures_of ps) -> (-1 < m)%Z).
+    { intros m Hm. apply measures_of_in in Hm. apply in_map_iff in Hm. destruct Hm as [p [<- Hp]]. rewrite Forall_forall in Hps. destruct (Hps p Hp). lia. }
+    destruct (wm_denote (measures_of ps) (-1) (measures_of_sorted ps) Hlt ltac:(lia)) as [out' [W1 [_ [W3 _]]]].
+    rewrite W in W1. injection W1 as <-.
+    pose proof (wm_rows4 Hc4 Hd4 (measures_of ps) (-1) out W) as R4.
+    rewrite (denote_measures_ns_eq _ _ _ _ _ _ _ _ _ _ D), app_nil_r.
+    apply Forall_rev. unfold body in *. destruct (join [10%Z; 44%Z; 10%Z] out) as [|b0 b'] eqn:Eb; [constructor|]. rewrite <- Eb.
+    assert (Hone: out <> []) by (intro E; rewrite E in Eb; discriminate).
+    assert (H44: Forall (fun mt => ~ In 44%Z mt) out).
+    { apply Forall_forall. intros mt Hmt. rewrite Forall_forall in W3. apply mch_no44. apply (W3 mt Hmt). }
+    assert (E : map (fun mt => Z.of_nat (length (mrows mt))) (split_on 44 (join [10%Z; 44%Z; 10%Z] out))
+                = map (fun mt => Z.of_nat (length (mrows mt))) out).
+    { rewrite <- (map_map mrows (fun r => Z.of_nat (length r))), (mrows_pieces out Hone H44), map_map. reflexivity. }
+    rewrite E. apply Forall_forall. intros n Hn. apply in_map_iff in Hn. destruct Hn as (mt & <- & Hmt). rewrite Forall_forall in R4. exact (R4 mt Hmt).
   Qed.
 End Chart.
